@@ -25,7 +25,11 @@ pub const TARGETS: &[FnTarget] = &[
     FnTarget { file: "compiler.rs", owner: Some("Precedence"), name: "from", lean: "precedence_from", havoc: &[], ignore_cfg_features: &[] },
     FnTarget { file: "compiler.rs", owner: Some("Compiler"), name: "patch_jump", lean: "patch_jump", havoc: &[], ignore_cfg_features: &[] },
     FnTarget { file: "compiler.rs", owner: Some("Compiler"), name: "resolve_local", lean: "compiler_resolve_local", havoc: &[], ignore_cfg_features: &[] },
+    FnTarget { file: "compiler.rs", owner: Some("Compiler"), name: "add_local", lean: "compiler_add_local", havoc: &[], ignore_cfg_features: &[] },
+    FnTarget { file: "compiler.rs", owner: Some("Compiler"), name: "mark_initialised", lean: "compiler_mark_initialised", havoc: &[], ignore_cfg_features: &[] },
+    FnTarget { file: "compiler.rs", owner: Some("Compiler"), name: "mark_last_initialised", lean: "compiler_mark_last_initialised", havoc: &[], ignore_cfg_features: &[] },
     FnTarget { file: "compiler.rs", owner: Some("Compiler"), name: "add_upvalue", lean: "compiler_add_upvalue", havoc: &[], ignore_cfg_features: &[] },
+    FnTarget { file: "compiler.rs", owner: Some("Parser"), name: "declare_variable", lean: "declare_variable", havoc: &[], ignore_cfg_features: &[] },
     FnTarget { file: "compiler.rs", owner: Some("Parser"), name: "emit_scope_end", lean: "emit_scope_end", havoc: &[], ignore_cfg_features: &[] },
     FnTarget { file: "compiler.rs", owner: Some("Parser"), name: "emit_loop", lean: "emit_loop", havoc: &[], ignore_cfg_features: &[] },
     FnTarget { file: "compiler.rs", owner: Some("Parser"), name: "patch_offset_at", lean: "patch_offset_at", havoc: &[], ignore_cfg_features: &[] },
@@ -173,6 +177,7 @@ fn translate_one(srcs: &[Src], db: &TypeDb, consts: &BTreeMap<String, i128>, t: 
             loop_fuel: false,
             loop_depth: 0,
             for_konts: Vec::new(),
+            hard_inval: 0,
             epoch: 0,
             struct_params: BTreeMap::new(),
             vm_mode: matches!(owner.as_deref(), Some("Vm") | Some("ObjFiber")),
@@ -200,6 +205,7 @@ fn translate_one(srcs: &[Src], db: &TypeDb, consts: &BTreeMap<String, i128>, t: 
         }
         // parameters
         let mut params: Vec<(String, LT)> = Vec::new();
+        let mut rust_params: Vec<(String, bool)> = Vec::new();
         for a in &sig.inputs {
             match a {
                 syn::FnArg::Receiver(_) => {}
@@ -212,6 +218,7 @@ fn translate_one(srcs: &[Src], db: &TypeDb, consts: &BTreeMap<String, i128>, t: 
                     if matches!(ty, LT::Struct(_)) {
                         // an object parameter: its fields are read as places `<param>.<field>` (inputs of the Lean function)
                         cx.struct_params.insert(n.clone(), convert_type(&pt.ty));
+                        rust_params.push((n.clone(), true));
                         continue;
                     }
                     if ty == LT::Opaque {
@@ -219,6 +226,7 @@ fn translate_one(srcs: &[Src], db: &TypeDb, consts: &BTreeMap<String, i128>, t: 
                         continue;
                     }
                     let lean = cx.declare(&n, ty.clone());
+                    rust_params.push((n.clone(), false));
                     params.push((lean, ty));
                 }
             }
@@ -228,13 +236,23 @@ fn translate_one(srcs: &[Src], db: &TypeDb, consts: &BTreeMap<String, i128>, t: 
         for tgt in &scan.assigned {
             let base = match tgt {
                 Expr::Index(ix) => &*ix.expr,
-                other => other,
+                other => match rec_elem_target(other) {
+                    Some((l, _, _)) => l,
+                    None => other,
+                },
             };
             if let Some(p) = cx.path_of(base) {
                 if cx.vm_mode && vm_place(&p).is_some() {
                     continue;
                 }
                 if p.starts_with("self") && !cx.written.contains(&p) {
+                    cx.written.push(p);
+                }
+            }
+        }
+        for (recv, m) in &scan.place_calls {
+            for p in cx.places_written_through(recv, m) {
+                if !cx.written.contains(&p) {
                     cx.written.push(p);
                 }
             }
@@ -332,7 +350,25 @@ fn translate_one(srcs: &[Src], db: &TypeDb, consts: &BTreeMap<String, i128>, t: 
             _ => t.name.to_string(),
         };
         let self_paths: Vec<String> = cx.inputs.iter().map(|i| i.2.trim_end_matches(" on entry").to_string()).filter(|p| p.starts_with("self.")).collect();
-        acc.callees.insert(key, Sig { lean: t.lean.to_string(), params: params.iter().map(|p| p.1.clone()).collect(), ret: cx.ret_ty.clone(), plain, self_only, self_paths });
+        let place_ins: Vec<(String, LT)> = cx.inputs.iter().map(|i| (i.2.trim_end_matches(" on entry").to_string(), i.1.clone())).collect();
+        let simple = !cx.has_effects && cx.cfg_inputs.is_empty() && !cx.loop_fuel && !cx.vm_mode && cx.inputs.iter().all(|i| i.2.ends_with(" on entry"));
+        let sigv = Sig {
+            lean: t.lean.to_string(),
+            params: params.iter().map(|p| p.1.clone()).collect(),
+            ret: cx.ret_ty.clone(),
+            plain,
+            self_only,
+            self_paths,
+            owner: owner.clone(),
+            rust_params,
+            place_ins,
+            written: cx.written.clone(),
+            simple,
+        };
+        if let Some(o) = &owner {
+            acc.callees.insert(format!("{}::{}", o, t.name), sigv.clone());
+        }
+        acc.callees.insert(key, sigv);
         acc.enums.extend(cx.enums_used.iter().cloned());
         acc.accessors.extend(cx.accessors.iter().cloned());
         acc.names.push(t.lean.to_string());
@@ -497,6 +533,7 @@ fn new_cx<'a>(
         loop_fuel: false,
         loop_depth: 0,
         for_konts: Vec::new(),
+        hard_inval: 0,
         epoch: 0,
         struct_params: BTreeMap::new(),
         vm_mode: false,
